@@ -2,32 +2,34 @@ package main
 
 import (
 	"fmt"
+	"runtime/debug"
 	"testing"
 	"time"
 )
 
-func TestDebugJSONTop(t *testing.T) {
+func TestDebugMarshal(t *testing.T) {
 	w, err := LoadWorld()
 	if err != nil {
 		t.Fatal(err)
 	}
-	ex := w.NewExec()
-	st := newState()
-	c07InstallLoaderContracts(ex, w, "JSONLoad")
-	doc := Var("doc", jvSort)
-	ex.knownTerms[jType(doc)] = IntLit(jTypeObject)
-	t0 := time.Now()
-	func() {
-		defer func() {
-			if r := recover(); r != nil {
-				fmt.Println("PANIC", r, "stack:")
-				for _, f := range ex.stack {
-					fmt.Println("   ", f)
+	for _, tn := range []string{"Object", "Activity", "Actor", "Place", "Link", "OrderedCollectionPage", "Question"} {
+		ex := w.NewExec()
+		st := newState()
+		sv := ex.symValue(w.Type(tn), varNamer("x"), false)
+		t0 := time.Now()
+		func() {
+			defer func() {
+				if r := recover(); r != nil {
+					fmt.Println("PANIC", r); debug.PrintStack()
 				}
-			}
+			}()
+			res := ex.Call(st, w.Method(tn, "MarshalJSON"), []Value{sv}, nil)
+			tv := res.(*TupleVal)
+			fmt.Printf("%s: bytes term size? %d err=%v\n", tn, len(tv.V[0].(*Term).String()), tv.V[1])
 		}()
-		res := ex.Call(st, w.Func("JSONUnmarshalToItem"), []Value{doc}, nil)
-		fmt.Printf("%T\n", res)
-	}()
-	fmt.Println("time", time.Since(t0), "feas", ex.feasQueries, "terms", termSeq, "calls", len(ex.calls), "acts", ex.actSeq)
+		fmt.Println(tn, "time", time.Since(t0), "feas", ex.feasQueries, "terms", termSeq, "panics", len(ex.panics), "bounded", ex.bounded)
+		for n := range ex.notes {
+			fmt.Println("   note:", n)
+		}
+	}
 }
